@@ -221,7 +221,7 @@ impl<'c, 'view> GetterReturnVisitor<'c, 'view> {
           }
         } else if let Prop::Method(method_prop) = &**prop_expr {
           if method_prop.function.is_generator {
-            return;
+            continue;
           }
           // e.g. Object.defineProperty(foo, 'bar', { get() {} })
           if let PropName::Ident(ident) = &method_prop.key {
